@@ -65,7 +65,7 @@ def relimit(rng, world, fixed=None):
 
 def project_case(rng, files, st, nruns, project=None, intended=None, limits=None, proj=None):
     """parse, build the graphs nruns times under different limits; returns (term, info) or raises"""
-    st = dict(st)
+    st = {k: (dict(v) if isinstance(v, dict) else v) for k, v in st.items()}   # FORD updates extra_mods in place
     show = bool(st.pop("show_proc_parent", False))
     with F.Work(files) as w:
         p = project if project is not None else F.parse_project(w.root, graph=True, **st)
@@ -86,7 +86,7 @@ def project_case(rng, files, st, nruns, project=None, intended=None, limits=None
             runs.append(recs)
             infos.append(python_checks(p, gm, log, recs, wk))
             if k == 0 and intended:
-                infos.append(intended_check(intended, recs, wk))
+                infos.append(intended_check(intended, recs, wk, proj))
             if k + 1 < nruns:
                 relimit(rng, world, limits[k] if limits else None)
     labels, lbad = GI.label_table(runs)
@@ -175,18 +175,19 @@ def python_checks(project, gm, log, recs, world):
     return bad
 
 
-def intended_check(intended, recs, world):
+def intended_check(intended, recs, world, proj=None):
     """the relation written into the generated source is drawn: for each `use`, submodule parent, type
     extension and type-valued component of the generated text, the arrow is in the first hop of the
     source entity's own uses / inherits graph (when that graph exists and its first hop was drawn)"""
     bad = []
     byid = {r["ident"]: r for r in recs}
     COUNTS["intended_relations"] += len(intended)
+    project_mods = {u["name"] for f in (proj or {}).get("files", []) for u in f if u["kind"] in ("module", "submodule")}
     for kind, a, b in sorted(intended):
         if kind in ("uses", "anc"):
             gids = [f"module~~{a}~~UsesGraph", f"program~~{a}~~UsesGraph"]
             tails = {f"module~{a}", f"program~{a}"}
-            heads = {f"module~{b}"} if re.fullmatch(r"m\d+|s\d+_\w+", b) else {b}
+            heads = {f"module~{b}"} if (re.fullmatch(r"m\d+|s\d+_\w+", b) or b in project_mods) else {b}
             dashed = kind == "uses"
         else:
             gids = [f"type~~{a}~~InheritsGraph"]
@@ -298,9 +299,18 @@ def run(chk):
     for i in range(n):
         # every fifth project is drawn in the loose mode (ambiguous references, deferred and inherited
         # bindings): model = implementation only; the others carry the generator's declared relation
-        proj = GG.gen(rng, {"big": (not quick) and i % 10 == 0, "strict": i % 5 != 4})
-        add_case(chk, cases, rng, GG.render(proj), GG.settings(rng), 3 if quick else 4, "gen", GG.intended(proj),
-                 proj=proj)
+        proj = GG.gen(rng, {"big": (not quick) and i % 10 == 0, "strict": i % 5 != 4,
+                            "nmods": rng.choice([2, 3, 4]) if i % 40 in (0, 1) else None})
+        st = GG.settings(rng)
+        if i % 40 == 0:
+            # a project module named like a module FORD knows by itself (settings.INTRINSIC_MODS): plain
+            # `use mpi` from a module, a procedure and a program means the project's module
+            GG.force_shadowing(rng, proj, rng.choice(["mpi", "omp_lib", "mpi_f08", "openacc"]))
+        elif i % 40 == 1:
+            # ... and a project module that also has an extra_mods entry
+            GG.force_shadowing(rng, proj)
+            st["extra_mods"] = {"m0": "https://example.org/doc/m0.html", "elsewhere": "https://example.org/e.html"}
+        add_case(chk, cases, rng, GG.render(proj), st, 3 if quick else 4, "gen", GG.intended(proj), proj=proj)
     t0 = time.time()
     res = chk.coq_judge(IMPORTS, CASE_T, "judge", [t for t, _ in cases], shard=5 if quick else 8)
     chk.extra["coq_eval_s"] = round(time.time() - t0, 1)
@@ -422,7 +432,8 @@ def replay(chk, rep):
         return 0
     import random
     st = {k: v for k, v in rep.get("settings", {}).items()
-          if k in ("graph_maxdepth", "graph_maxnodes", "proc_internals", "show_proc_parent", "display")}
+          if k in ("graph_maxdepth", "graph_maxnodes", "proc_internals", "show_proc_parent", "display",
+                   "extra_mods")}
     for k in ("graph_maxdepth", "graph_maxnodes"):
         if k in st:
             st[k] = int(st[k])
